@@ -118,7 +118,7 @@ package sugardb
 //@   requires hasdb(ctx) && standalone(server) && server.snapshotEngine != nil
 //@   preserves maps, locks, dbs
 //@   ensures {C08} refused: old(memfull(server)) && server.config.EvictionPolicy == "noeviction" ==> result != nil
-//@   ensures {C08,C01} unchanged: result != nil && old(memfull(server)) && server.config.EvictionPolicy == "noeviction" ==> (forall k string :: (has(server.store[dbof(ctx)], k) <==> old(has(server.store[dbof(ctx)], k))) && server.store[dbof(ctx)][k] == old(server.store[dbof(ctx)][k])) && server.memUsed == old(server.memUsed)
+//@   ensures {C08,C01,C05} unchanged: result != nil && old(memfull(server)) && server.config.EvictionPolicy == "noeviction" ==> (forall k string :: (has(server.store[dbof(ctx)], k) <==> old(has(server.store[dbof(ctx)], k))) && server.store[dbof(ctx)][k] == old(server.store[dbof(ctx)][k])) && server.memUsed == old(server.memUsed)
 //@   ensures {C01} written: result == nil ==> (forall k string :: has(entries, k) ==> has(server.store[dbof(ctx)], k) && server.store[dbof(ctx)][k].Value == entries[k])
 //@   ensures {C04} deadline: result == nil ==> (forall k string :: has(entries, k) ==> server.store[dbof(ctx)][k].ExpireAt == (old(livekey(server, dbof(ctx), k, $now)) ? old(server.store[dbof(ctx)][k].ExpireAt) : zerotime))
 //@   ensures {C01,C20} otherkeys: forall k string :: !has(entries, k) ==> (has(server.store[dbof(ctx)], k) <==> old(has(server.store[dbof(ctx)], k))) && server.store[dbof(ctx)][k] == old(server.store[dbof(ctx)][k])
